@@ -169,6 +169,8 @@ func typeName(v val) string {
 
 func opName(it *item) string {
 	switch {
+	case it.op == "prog":
+		return "aliasing: " + it.args[2].s
 	case strings.HasPrefix(it.op, "f:"):
 		return it.op[2:]
 	case strings.HasPrefix(it.op, "m:"), strings.HasPrefix(it.op, "l:"):
@@ -221,6 +223,7 @@ func (m *monitor) judge(sp *caseSpec, groups []group) bool {
 			var r res
 			r.direct = m.env.direct(it)
 			r.source, r.src = m.env.viaSource(it)
+			r.src = strings.ReplaceAll(strings.TrimSpace(r.src), "\n", " ⏎ ")
 			results[gi][ai] = r
 		}
 	}
